@@ -3,9 +3,14 @@
    what the node reported after every operation, the recorded effect log (metadata Puts of the includer's
    keys and SetFinal calls, in order), the final dump of the includer's metadata keys, and the cache lookups
    of every stored block's header hash / every data commitment.  [mismatches] lists the cases on which the
-   model disagrees (index, what differs). *)
+   model disagrees (index, what differs).
+   Full-node cases carry the history as groups of Model/IncluderScan.v items instead ([ic_fops]: blocks applied,
+   DA heights posted with their blob classes, scan iterations with the faults the DA double was scripted to
+   answer with, includer runs, deaths, restarts): the mark events are then COMPUTED by the model from the DA
+   content, and after every operation the scan cursor m.daHeight and the State.DAHeight found in the store are
+   compared as well. *)
 From Coq Require Import String NArith List Bool.
-From Verif Require Import Base.Keys Model.Includer.
+From Verif Require Import Base.Keys Model.Includer Model.IncluderScan.
 Import ListNotations.
 Open Scope string_scope.
 Open Scope list_scope.
@@ -48,7 +53,10 @@ Record icase := {
   ic_meta : list (mkey * N);        (* final dump of "/m/d" and "/m/rhb/*" *)
   ic_hm : list (N * option N);      (* header-hash id, headerCache.GetDAIncludedHeight *)
   ic_dm : list (N * option N);      (* commitment id, dataCache.GetDAIncludedHeight *)
-  ic_keys : list (mkey * string)    (* sample of real datastore keys against [key_str] *)
+  ic_keys : list (mkey * string);   (* sample of real datastore keys against [key_str] *)
+  ic_full : bool;                   (* a full-node case: [ic_fops] is the history, [ic_ops] is unused *)
+  ic_fops : list (list fitem);
+  ic_fobs : list (N * N)            (* after each operation: m.daHeight, State.DAHeight read back from the store *)
 }.
 
 Definition next_included (s : node) : bool :=
@@ -77,17 +85,36 @@ Definition meta_agrees (m : metaT) (dump : list (mkey * N)) : bool :=
   forallb (fun e => optN_eqb (meta_get m (fst e)) (Some (snd e))) dump
   && forallb (fun e => existsb (fun d => mkey_eqb (fst e) (fst d)) dump) m.
 
+(* a group of full-node items: the Includer items it amounts to, and the state after it *)
+Fixpoint frun_group (s : fnode) (g : list fitem) : fnode * list item :=
+  match g with
+  | [] => (s, [])
+  | i :: r => let its := items_of s i in
+              let '(s', rest) := frun_group (fstep s i) r in (s', its ++ rest)
+  end.
+Fixpoint frun_ops (s : fnode) (ops : list (list fitem)) : list (list item) * list (N * N) :=
+  match ops with
+  | [] => ([], [])
+  | g :: r => let '(s', its) := frun_group s g in
+              let '(gs, os) := frun_ops s' r in (its :: gs, (cur s', sdah s') :: os)
+  end.
+Definition pair_eqb (a b : N * N) : bool := (fst a =? fst b) && (snd a =? snd b).
+
 (* 1 = observations differ, 2 = effect log differs, 3 = metadata image differs, 4 = cache marks differ,
-   5 = a key builder differs, 6 = the height visible at an instant of death / fault differs *)
+   5 = a key builder differs, 6 = the height visible at an instant of death / fault differs,
+   7 = (full node) the scan cursor or the stored State.DAHeight differs *)
 Definition check_case (c : icase) : list N :=
-  let '(s, os) := run_ops (init (ic_base c)) (ic_ops c) in
+  let '(fgroups, fobs) := frun_ops (finit (ic_base c)) (ic_fops c) in
+  let ops := if ic_full c then fgroups else ic_ops c in
+  let '(s, os) := run_ops (init (ic_base c)) ops in
   (if list_eqb obs_eqb os (ic_obs c) then [] else [1]) ++
   (if list_eqb eff_eqb (filter recordable (rev (tr s))) (ic_trace c) then [] else [2]) ++
   (if meta_agrees (meta s) (ic_meta c) then [] else [3]) ++
   (if forallb (fun e => optN_eqb (mget (hm s) (fst e)) (snd e)) (ic_hm c)
       && forallb (fun e => optN_eqb (mget (dm s) (fst e)) (snd e)) (ic_dm c) then [] else [4]) ++
   (if forallb (fun e => String.eqb (key_str (fst e)) (snd e)) (ic_keys c) then [] else [5]) ++
-  (if list_eqb N.eqb (deaths (init (ic_base c)) (concat (ic_ops c))) (ic_death c) then [] else [6]).
+  (if list_eqb N.eqb (deaths (init (ic_base c)) (concat ops)) (ic_death c) then [] else [6]) ++
+  (if negb (ic_full c) || list_eqb pair_eqb fobs (ic_fobs c) then [] else [7]).
 
 Fixpoint mismatches_from (i : N) (cs : list icase) : list (N * list N) :=
   match cs with
